@@ -217,11 +217,6 @@ Definition replies (h : handler) (ms : list msg) : bytes :=
                         | None => []
                         end) ms).
 
-(* bodies built by rule rather than spelled out (boundary sizes): byte i = (a * i + b) mod 256 *)
-Definition fill_step (a b : N) (p : N * bytes) : N * bytes :=
-  let i := N.pred (fst p) in (i, ((a * i + b) mod 256) :: snd p).
-Definition fill (n a b : N) : bytes := snd (N.iter n (fill_step a b) (n, [])).
-
 (* ---- inputs the property speaks about: complete valid messages, then an optional tail ---- *)
 Inductive tail :=
 | TNone                                   (* clean end of stream *)
